@@ -31,6 +31,7 @@ from liquid.token import TOKEN_TRUE
 from liquid.token import TOKEN_WORD
 
 from .path import Path
+from .path import quote_string
 
 if TYPE_CHECKING:
     from liquid import Environment
@@ -178,6 +179,9 @@ class StringLiteral(Literal[str]):
 
     def __eq__(self, other: object) -> bool:
         return isinstance(other, StringLiteral) and self.value == other.value
+
+    def __str__(self) -> str:
+        return quote_string(self.value)
 
     def __hash__(self) -> int:
         return hash(self.value)
